@@ -256,11 +256,19 @@ func (c c13) agree(res *core.Result, log *core.EventLog, ent *entropy.Source, cv
 		res.Evals++
 		dg := ar.Put("digest", digest)
 		var vf, vs bool
+		if pv := safely(func() {
+			if enc != nil {
+				vf = ecdsa.VerifyASN1(pubF, dg, ar.Put("sig", enc))
+			} else {
+				vf = ecdsa.Verify(pubF, dg, rr, ss)
+			}
+		}); pv != nil {
+			res.Violate("C13/fork-panicked/"+label, fmt.Sprintf("%s, variant %s: this package's verifier panicked (%v) where crypto/ecdsa returns a verdict", cname, label, pv), si)
+			return
+		}
 		if enc != nil {
-			vf = ecdsa.VerifyASN1(pubF, dg, ar.Put("sig", enc))
 			vs = stdecdsa.VerifyASN1(pubS, digest, enc)
 		} else {
-			vf = ecdsa.Verify(pubF, dg, rr, ss)
 			vs = stdecdsa.Verify(pubS, digest, rr, ss)
 		}
 		log.Add("agree %s fork=%v std=%v", label, vf, vs)
